@@ -124,6 +124,7 @@ pub fn worker_main(args: &[String]) -> i32 {
     match args.first().map(|s| s.as_str()) {
         Some("parsers") => crate::engine::worker::worker_loop(targets::parser_target),
         Some("c08sched") => c08_sched::worker_main(&args[1..]),
+        Some("c20fd") => c20::fd_worker(&args[1..]),
         _ => 2,
     }
 }
